@@ -320,6 +320,9 @@ def call_builtin(it, name, args, kwargs):
         b = base.sidx((scalar_arith('+', lo, k),))
         return zand(scalar_cmp('==', v.n, scalar_arith('-', hi, lo)),
                     *[scalar_cmp('==', x, y) for x, y in zip(a, b)])
+    if name == 'shares_memory':
+        a, b = args
+        return isinstance(a, SArr) and isinstance(b, SArr) and a.store is b.store
     if name == 'ghost':
         return ctx.ghost.get(args[0])
     if name == 'Sum':
